@@ -8,4 +8,37 @@ CLASSES = {
     '_next_sink_provider': 'any', '_server_set_provider': 'any'}),
   'Event': dict(extern=True, path=None, fields={'flag': 'bool'}, bases=[]),
 }
-FUNCTIONS = {}
+FUNCTIONS = {
+  # behavioural contract of the subclass hook (HeapBalancerSink._AsyncProcessRequestImpl is verified against its own, stronger one)
+  'LoadBalancerSink._AsyncProcessRequestImpl': dict(
+    cls='LoadBalancerSink', params={'sink_stack': 'ClientMessageSinkStack', 'msg': 'Message', 'stream': 'any', 'headers': 'any'},
+    requires=[], ensures=[], modifies=['*'], allocates=True, trusted=True,
+    notes='abstract hook: dispatches the request into a member channel (see HeapBalancerSink._AsyncProcessRequestImpl)'),
+  'LoadBalancerSink.AsyncProcessRequest': dict(
+    cls='LoadBalancerSink', params={'sink_stack': 'ClientMessageSinkStack', 'msg': 'Message', 'stream': 'any', 'headers': 'any'},
+    requires=['self.__open_ar is not None'], ensures=[], modifies=['*'], allocates=True,
+    ghost=[
+      # not open yet: the request is chained behind the open result, nothing is dispatched now
+      {'before': 'self.__open_ar.rawlink(_on_open_done)', 'do': ['prove(not self.__open_ar.g_ready, "deferred-only-while-opening")']},
+      {'before': 'self._AsyncProcessRequestImpl(sink_stack, msg, stream, headers)', 'do': ['prove(self.__open_ar.g_ready, "direct-only-when-open")']},
+    ],
+    props=['C01', 'C12'],
+  ),
+  'LoadBalancerSink.AsyncProcessRequest._on_open_done': dict(
+    params={'_': 'any'},
+    captures={'self': 'LoadBalancerSink', 'msg': 'Message', 'sink_stack': 'ClientMessageSinkStack', 'stream': 'any', 'headers': 'any'},
+    requires=['allocated(msg.properties)'], ensures=[], modifies=['*'], allocates=True,
+    ghost=[
+      {'before': 'timeout_event = msg.properties.get(Deadline.EVENT_KEY, None)', 'do': [
+        'g_timed_out = ("__Deadline_Event" in msg.properties) and msg.properties["__Deadline_Event"] is not None and truthy(msg.properties["__Deadline_Event"].value)']},
+      # a request whose caller was already handed TimeoutError is dropped when the open completes
+      {'before': 'self._AsyncProcessRequestImpl(sink_stack, msg, stream, headers)', 'do': ['prove(not g_timed_out, "timed-out-request-not-forwarded")', 'g_forwarded = True']},
+    ],
+    props=['C01', 'C12'],
+  ),
+}
+
+EXTERNS = {
+  'AsyncResult.ready': dict(params=[], returns='bool', ensures=['result == self.g_ready']),
+  'AsyncResult.rawlink': dict(params=[('callback', 'any')], notes='registers a completion callback; gevent runs it once, later, in registration order (assumed)'),
+}
